@@ -73,7 +73,7 @@ FINDING_CLASSES = {1: "save-skip-none-null-over-default",   # class 2 (skip-defa
                    3: "skip-default-eq-conflates-types", 4: "json-nonfinite-float", 5: "unprintable-str",
                    6: "comments-reemit", 7: "enum-member-null", 8: "default-not-normalised",
                    12: "skip-default-prune-vs-carry-over",
-                   13: "skip-default-subcommand-crash", 14: "empty-subcommand-not-reselected"}   # 9, 10 repaired: /repo 2b39397 (fx_subclass_trim = true)
+                   14: "empty-subcommand-not-reselected"}  # 13 (skip-default-subcommand-crash) repaired: /repo e6822fd   # 9, 10 repaired: /repo 2b39397 (fx_subclass_trim = true)
 # class 11 (skip_default pruned the init_args of a subclass spec) is outside the proved statement but NOT a finding: a
 # failure there is reported as a violation
 
